@@ -44,6 +44,13 @@ fn level_args(tag: &str, short_base: u8) -> Vec<ArgSpec> {
         PvSpec { name: format!("pvtwo{}", tag), help: Some("pv help".into()), ..Default::default() },
         PvSpec { name: format!("pvhid{}", tag), hide: true, ..Default::default() },
     ]);
+    // a hidden short alias declared before a visible one
+    let upper = |b: u8| match (b as char).to_ascii_uppercase() {
+        'V' | 'H' => 'Z', // kept free for the generated version / help flags
+        c => c,
+    };
+    o.short_aliases.push(upper(short_base));
+    o.visible_short_aliases.push(upper(short_base + 1));
     let mut ov = ArgSpec::opt(&format!("ov{}", tag), None, Some(&format!("loptval{}", tag)));
     ov.num_args = Some((0, Some(1)));
     ov.parser = Vp::Pv(vec![PvSpec { name: format!("ovone{}", tag), ..Default::default() }, PvSpec { name: format!("ovtwo{}", tag), ..Default::default() }]);
@@ -88,6 +95,18 @@ fn trees(thorough: bool) -> Vec<Tree> {
                     if k == 0 {
                         c.visible_aliases.push(format!("{}vis", n));
                         c.aliases.push(format!("{}hid", n));
+                    }
+                    if pos && k == 0 && n != "sb" && !nested {
+                        // leaf level: a multi-value positional ended by a value terminator, then a
+                        // `last` positional with possible values
+                        let mut pt = ArgSpec::pos(&format!("pterm{}", ci), 1);
+                        pt.num_args = Some((1, None));
+                        pt.terminator = Some(";".into());
+                        c.args.push(pt);
+                        let mut pl = ArgSpec::pos(&format!("plast{}", ci), 2);
+                        pl.last = true;
+                        pl.parser = Vp::Pv(vec![PvSpec { name: format!("lastone{}", ci), ..Default::default() }, PvSpec { name: format!("lasttwo{}", ci), ..Default::default() }]);
+                        c.args.push(pl);
                     }
                     if n == "sb" {
                         // nested `sb` -> `c` collides with `sb-c` after name mangling
@@ -157,7 +176,8 @@ fn short_pattern(gen: &str, s: char) -> Vec<String> {
         "fish" => vec![format!("-s {}", s)],
         "powershell" => vec![format!("'-{}'", s)],
         "elvish" => vec![format!("cand -{} ", s)],
-        _ => vec![format!("(-{})", s)],
+        // primary short: `--long(-s)`; short-only arguments and short aliases: a line of their own
+        _ => vec![format!("(-{})", s), format!("    -{}", s)],
     }
 }
 
@@ -179,6 +199,11 @@ fn check_mentions(gen: &str, spec: &CmdSpec, script: &str) -> Vec<(String, Strin
             if let Some(s) = a.short {
                 if !short_pattern(gen, s).iter().any(|p| script.contains(p)) {
                     bad.push((format!("{}: an option's short is not mentioned", gen), format!("-{} at level {:?}", s, l.path)));
+                }
+            }
+            for s in &a.visible_short_aliases {
+                if !short_pattern(gen, *s).iter().any(|p| script.contains(p)) {
+                    bad.push((format!("{}: an option's visible short alias is not mentioned", gen), format!("-{} at level {:?}", s, l.path)));
                 }
             }
             if let Vp::Pv(pvs) = &a.parser {
@@ -226,6 +251,14 @@ fn level_words_h(c: &CmdSpec, hidden: bool) -> (BTreeSet<String>, BTreeSet<Strin
         if let Some(s) = a.short {
             opts.insert(format!("-{}", s));
         }
+        for s in a.visible_short_aliases.iter() {
+            opts.insert(format!("-{}", s));
+        }
+        if hidden {
+            for s in a.short_aliases.iter() {
+                opts.insert(format!("-{}", s));
+            }
+        }
         for n in a.long.iter().chain(a.visible_aliases.iter()) {
             opts.insert(format!("--{}", n));
         }
@@ -254,6 +287,9 @@ fn level_words(c: &CmdSpec) -> (BTreeSet<String>, BTreeSet<String>) {
     let mut opts = BTreeSet::new();
     for a in c.args.iter().filter(|a| !a.hide) {
         if let Some(s) = a.short {
+            opts.insert(format!("-{}", s));
+        }
+        for s in a.visible_short_aliases.iter() {
             opts.insert(format!("-{}", s));
         }
         for n in a.long.iter().chain(a.visible_aliases.iter()) {
